@@ -439,6 +439,8 @@ func (u *Unit) sumLinearity(fn *sumFn, body, vname, ks, rs string, isRange bool,
 		}
 		ss.fns[key] = inner
 		ss.list = append(ss.list, inner)
+		// nested shapes: A*(m[k]/S) -> A * sum(m[k]/S) -> A * (sum(m[k]) / S)
+		u.sumLinearity(inner, e, vname, ks, rs, isRange, outers, keyTyp, inner.tmpl)
 	}
 	dom, args := fmt.Sprintf("(A %s)", ArrSort(ks, SBool)), "A"
 	if isRange {
